@@ -274,11 +274,17 @@ Definition act_events (aok : ck -> bool) (a : act) : list ev :=
   | AJob j o => job aok j o
   end.
 
-(* l is an interleaving of the lists ls (each list's own order is kept) *)
+(* l is a merge of a and b (both orders kept) *)
+Inductive Merge : list ev -> list ev -> list ev -> Prop :=
+| M_nil : Merge [] [] []
+| M_l : forall x a b l, Merge a b l -> Merge (x :: a) b (x :: l)
+| M_r : forall x a b l, Merge a b l -> Merge a (x :: b) (x :: l).
+
+(* l is an interleaving of the lists ls: every list's own order is kept, nothing else is assumed
+   about the schedule *)
 Inductive Interleave : list (list ev) -> list ev -> Prop :=
-| IL_nil : forall ls, Forall (fun x => x = []) ls -> Interleave ls []
-| IL_step : forall pre x xs post l,
-    Interleave (pre ++ xs :: post) l -> Interleave (pre ++ (x :: xs) :: post) (x :: l).
+| IL_nil : Interleave [] []
+| IL_cons : forall a ls m l, Interleave ls m -> Merge a m l -> Interleave (a :: ls) l.
 
 (* ---------- views of the log ---------- *)
 Definition sess_stream (sid : N) (l : list ev) : list (N * sk) :=
@@ -290,12 +296,13 @@ Definition ck_run (k : ck) : option N :=
   | _ => None
   end.
 
+(* the run a frame belongs to: session frames by stream id, thread frames by run_session_id *)
+Definition ev_run (e : ev) : option N :=
+  match e with ES s _ _ => Some s | EC k => ck_run k end.
+
 (* everything the run `sid` wrote: its session frames and the thread frames that name it *)
 Definition of_run (sid : N) (e : ev) : bool :=
-  match e with
-  | ES s _ _ => s =? sid
-  | EC k => match ck_run k with Some r => r =? sid | None => false end
-  end.
+  match ev_run e with Some r => r =? sid | None => false end.
 
 Definition conts (l : list ev) : list ck :=
   flat_map (fun e => match e with EC k => [k] | ES _ _ _ => [] end) l.
@@ -306,7 +313,8 @@ Definition is_end_of (run : N) (k : ck) : bool :=
   match k with CRunEnded r _ _ => r =? run | _ => false end.
 Definition is_job_end_of (j : N) (k : ck) : bool :=
   match k with CJobEnded x _ => x =? j | _ => false end.
-Definition count_ck (p : ck -> bool) (l : list ev) : nat := length (filter p (conts l)).
+Definition ckp (p : ck -> bool) (e : ev) : bool := match e with EC k => p k | ES _ _ _ => false end.
+Definition count_ck (p : ck -> bool) (l : list ev) : nat := length (filter (ckp p) l).
 
 Fixpoint seqs_from (s : N) (n : nat) : list N :=
   match n with O => [] | S m => s :: seqs_from (s + 1) m end.
@@ -329,6 +337,14 @@ Definition ThreadShape (run mid : N) (cs : list ck) (r : N) : Prop :=
     /\ (cur = [] \/ cur = [CCursor run]).
 
 Definition all_ok : ck -> bool := fun _ => true.
+
+(* the activity really started a run (for a post: both appends of thread_post_message succeeded) *)
+Definition act_started (aok : ck -> bool) (a : act) : bool :=
+  match a with
+  | APost _ mid sid _ => aok (CMessage mid) && aok (CRunSpawned sid mid)
+  | AInput _ _ _ => true
+  | AJob _ _ => false
+  end.
 
 Definition act_sids (a : act) : list N :=
   match a with APost _ _ s _ | AInput _ s _ => [s] | AJob _ _ => [] end.
